@@ -202,7 +202,7 @@ class Tracer:
         return self._src[key]
 
     def inline(self, obj, meth, args, kwargs):
-        node, glob, is_static = self._function(type(obj), meth)
+        node, glob, is_static = self._function(obj if isinstance(obj, type) else type(obj), meth)
         params = [a.arg for a in node.args.args]
         env = {}
         vals = list(args) if is_static else [obj] + list(args)
@@ -418,6 +418,10 @@ class Tracer:
             vals = [self.eval(v, env, glob) for v in node.values]
             if any(isinstance(v, (Tok, Opaque)) for v in vals):
                 raise Symbolic()
+            if any(isinstance(v, _PadBit) for v in vals):
+                if isinstance(node.op, ast.Or) and all(isinstance(v, _PadBit) or v in (0, False) for v in vals):
+                    return True       # `if pad_right or pad_bottom:` guards the pad; `padTop` pads only where the sizes differ
+                raise Untranslatable(f"condition on pad amounts `{ast.unparse(node)[:50]}`")
             return all(vals) if isinstance(node.op, ast.And) else any(vals)
         if isinstance(node, ast.Compare):
             left = self.eval(node.left, env, glob)
@@ -444,7 +448,13 @@ class Tracer:
                 left = right
             return res
         if isinstance(node, ast.IfExp):
-            return self.eval(node.body if self.eval(node.test, env, glob) else node.orelse, env, glob)
+            test = self.eval(node.test, env, glob)
+            if isinstance(test, _Ne):
+                # `1 if a.shape[ax] != b.shape[ax] else 0`: the amount by which axis `ax` of `a` is padded
+                if self.eval(node.body, env, glob) == 1 and self.eval(node.orelse, env, glob) == 0:
+                    return _PadBit(test)
+                raise Untranslatable(f"conditional expression on a shape comparison `{ast.unparse(node)[:50]}`")
+            return self.eval(node.body if test else node.orelse, env, glob)
         if isinstance(node, ast.ListComp):
             if len(node.generators) != 1 or node.generators[0].ifs:
                 raise Untranslatable("list comprehension")
@@ -492,6 +502,26 @@ class Tracer:
         if ftxt == "F.pad":
             spec = args[1]
             mode = args[2] if len(args) > 2 else kwargs.get("mode", "constant")
+            if isinstance(spec, (list, tuple)) and any(isinstance(v, _PadBit) for v in spec):
+                # `[0, pad_right, 0, pad_bottom]` written out: the same information as the filled `padding` list
+                ps = PadSpec(len(spec))
+                for i, v in enumerate(spec):
+                    if i % 2 == 0:
+                        if v != 0:
+                            raise Untranslatable("padding at the start of an axis")
+                    elif isinstance(v, _PadBit):
+                        if i != 2 * (-v.ne.axis) - 1:
+                            raise Untranslatable(f"pad amount of axis {v.ne.axis} at position {i} of the F.pad list")
+                        if ps.cur is None:
+                            ps.cur, ps.ref = v.ne.a, v.ne.b
+                        elif ps.cur is not v.ne.a or ps.ref is not v.ne.b:
+                            raise Untranslatable("padding list compares different tensor pairs")
+                        ps.entries[i] = v.ne.axis
+                    elif v != 0:
+                        raise Untranslatable("F.pad outside the known idiom")
+                if ps.cur is not None and ps.cur.sid != args[0].sid:
+                    raise Untranslatable("the padded tensor is not the compared one")
+                spec = ps
             if isinstance(spec, PadSpec) and mode == "reflect" and spec.cur is not None and len(spec.entries) == spec.n // 2:
                 # (when the padded tensor is no longer the compared one — statements re-ordered — the operation is still
                 # emitted where it stands: the program then differs from the model and the bridge lemma fails)
@@ -517,6 +547,17 @@ class Tracer:
         if ftxt in ("torch.zeros", "torch.tensor", "torch.ones"):
             return Opaque("tensor")
         f = self.eval(node.func, env, glob)
+        if isinstance(node.func, ast.Attribute) and not isinstance(f, (_BoundTok, nn.Module)):
+            # helper extraction: `self._helper(...)` / `ClassName._helper(...)` (methods and static methods of repo modules) are
+            # inlined at the call site, so that the program does not depend on which method a statement sits in
+            try:
+                owner = self.eval(node.func.value, env, glob)
+            except Untranslatable:
+                owner = None
+            cls = owner if isinstance(owner, type) else type(owner)
+            if (isinstance(owner, nn.Module) or (isinstance(owner, type) and issubclass(owner, nn.Module))) \
+                    and not cls.__module__.startswith("torch.") and callable(f) and node.func.attr in _all_dict(cls):
+                return self.inline(owner, node.func.attr, args, kwargs)
         if isinstance(f, _BoundTok):
             if f.attr in _NEUTRAL_METHODS:
                 return f.tok
@@ -639,6 +680,22 @@ class _BoundTok:
 class _Ne:
     def __init__(self, a, b, axis):
         self.a, self.b, self.axis = a, b, axis
+
+
+class _PadBit:
+    """`1 if a.shape[ax] != b.shape[ax] else 0`"""
+
+    def __init__(self, ne):
+        self.ne = ne
+
+
+def _all_dict(cls):
+    out = {}
+    for c in reversed(cls.__mro__):
+        if c.__module__.startswith("torch.") or c is object:
+            continue
+        out.update(c.__dict__)
+    return out
 
 
 def trace_forward(module, n_inputs=1, hooked=(), same_shape_inputs=True):
